@@ -127,12 +127,14 @@ struct TolG {
     std::vector<double> Rabs, P, shift;                      // kept terms: |R|, pole, possible pole shift by merging
     std::vector<double> Pgroup; std::vector<long> kgroup;    // groups of like poles with possible cancellation
     double thr = 1e-8;
+    double beta = 0;            // set by the caller when known: enables the allowance for the rounding of the statistical weights
+    double pole_noise_ = 0;
     void prepare(const LehmannTerms& t, double threshold = 1e-8, double merge = 1e-8) {
         thr = threshold;
         // rounding of the poles themselves: the library and the reference diagonalise independently, each eigenvalue carries an error of a few
         // ulp of the spectral width; at low temperature (small |w_n|) a term R/(z-P) turns that into R*dP/|z-P|^2 with 1/|z-P|^2 ~ (beta/pi)^2
         double pmax = 0; for (double p : t.P) pmax = std::max(pmax, std::abs(p));
-        const double pole_noise = 32 * 2.220446049250313e-16 * (1 + pmax);
+        const double pole_noise = 32 * 2.220446049250313e-16 * (1 + pmax); pole_noise_ = pole_noise;
         std::vector<size_t> kept;
         for (size_t k = 0; k < t.R.size(); ++k) {
             if (std::abs(t.R[k]) <= thr * (1 + 1e-6)) { Rsmall.push_back(t.R[k]); Psmall.push_back(t.P[k]); }
@@ -173,6 +175,13 @@ struct TolG {
         for (size_t k = 0; k < Rsmall.size(); ++k) tol += std::abs(Rsmall[k]) / std::abs(z - Psmall[k]);
         for (size_t k = 0; k < P.size(); ++k) { double dz = std::abs(z - P[k]); tol += Rabs[k] * shift[k] / (dz * std::max(dz - shift[k], 1e-300)); }
         for (size_t k = 0; k < Pgroup.size(); ++k) tol += double(kgroup[k]) * thr / std::max(std::abs(z - Pgroup[k]) - 2e-8, 1e-300);
+        // rounding of the two independently computed sums: every term R/(z-P) carries a few ulp (matrix elements after two rotations), the errors
+        // add like a random walk; matters only at low temperature where |z-P| is small for the poles at zero
+        double s1 = 0; for (size_t k = 0; k < P.size(); ++k) s1 += Rabs[k] / std::abs(z - P[k]);
+        tol += 8 * 2.220446049250313e-16 * s1 * std::sqrt(double(P.size()) + 1);
+        // the statistical weights e^{-beta (E-E0)} inherit beta * (rounding of the eigenvalues): at beta ~ 1e3 that is a relative 1e-11 per term,
+        // visible where the terms cancel (real part of a particle-hole symmetric G)
+        tol += 4 * s1 * beta * pole_noise_;
         return tol * 1.05 + 1e-11 * (1 + std::abs(ref));
     }
 };
